@@ -354,6 +354,21 @@ theorem recovery_on_file_storage (evs : List FEvent) (c : Cfg) :
   | err e y => rw [hr] at this; exact this.elim
   | crash y => rw [hr] at this; exact this.elim
 
+/-- **root stability on FileStorage.**  A root certificate that `Load` shows stays what `Load`
+    shows, with the same root key next to it, through any further history of start-ups with a
+    fault of any kind at any file operation -/
+theorem fs_root_frozen : ∀ (evs : List FEvent) (d : FDisk) (b : Blob), KeysWhole d.dir → view d.dir .rootCrt = some b →
+    view (runFSHist codeOrder evs d).dir .rootCrt = some b ∧
+    view (runFSHist codeOrder evs d).dir .rootKey = view d.dir .rootKey ∧ KeysWhole (runFSHist codeOrder evs d).dir
+  | [], _, _, hw, h => ⟨h, rfl, hw⟩
+  | e :: es, d, b, hw, h => by
+    have hs := wp_sound_fs e.fault (startup codeOrder e.cfg) _ (bootFS d) hw
+      (wp_startup_root_frozen codeOrder e.cfg (view d.dir) d.fresh b h)
+    have h1 := hs.view_all (P := fun s => s .rootCrt = some b ∧ s .rootKey = view d.dir .rootKey)
+      (fun _ _ _ h => h.1) (fun _ _ h => h) (fun _ h => h)
+    have ih := fs_root_frozen es (e.after codeOrder d) b h1.2 h1.1.1
+    exact ⟨ih.1, ih.2.1.trans h1.1.2, ih.2.2⟩
+
 /-- the instance the lead's wording names: ONE fault of any kind at any file operation of the
     creation, then a restart -/
 theorem recovery_after_any_single_file_fault (idx : Nat) (mode : FMode) (life life' : Nat) :
